@@ -115,4 +115,8 @@ FIXED_BY_SUBJECT = {
    ('C01', 'BER wrote an absent OPTIONAL SEQUENCE/SET without mandatory members as present-and-empty: SEQUENCE { f0 SEQUENCE { g INTEGER OPTIONAL } OPTIONAL } with f0 absent encoded as 30 02 30 00'),
    ('C03', 'same BER output read by the reference as a different abstract value'),
    ('C17', 'the value object gained a present-and-empty component the Python tree lacks; native round trip returned an extra empty member')],
+ "fix: SequenceOf/SetOf index() searched in storage order instead of position": [
+   ('C19', 'after members had been stored out of order (s[1]=1; s[2]=5; s[0]=5; s[3]=5, which the setters accept and the repository tests pin) index(5) returned 2 instead of 0 and applied start/stop to the order of assignment (found when seeded change C19e made the history generator fill positions out of order)')],
+ "fix: SequenceOf/SetOf sort() was stable with respect to storage order, not position": [
+   ('C19', 'after an out-of-order fill, sort(key=...) with a key that ties distinct members left the ties in order of assignment instead of positional order: [0, 6, 0, 2] stored backwards and sorted by v // 3 gave [2, 0, 0, 6] instead of [0, 0, 2, 6]')],
 }
